@@ -207,6 +207,7 @@ ERR_CLASSES = [
     (yexc.NoMatchingFunctionException, "ENoMatch"),
     (yexc.AmbiguousFunctionException, "EAmbiguous"),
     (ZeroDivisionError, "EZeroDiv"),
+    (yexc.MemoryQuotaExceededException, "EQuota"),
     (OverflowError, "EResource"),
     (MemoryError, "EResource"),
 ]
@@ -223,10 +224,12 @@ class Impl:
     """the real engine; one pristine context for values, one with recording payloads for
     'which overload ran'"""
 
-    def __init__(self, cfg="CDefault"):
+    def __init__(self, cfg="CDefault", options=None):
         self.cfg = cfg
         self.ctx, self.engine = G.make_config(cfg)
         self.ictx, _ = G.make_config(cfg)
+        if options is not None:
+            self.engine = yaql.YaqlFactory().create(dict(options))
         self.ran = []
         self.cache = {}
         for _, name, arity, _ in G.OPS:
@@ -280,8 +283,59 @@ def impl(cfg="CDefault"):
     return _impls[cfg]
 
 
+def impl_quota(quota):
+    key = ("quota", quota)
+    if key not in _impls:
+        impl()
+        _impls[key] = Impl("CQuota", {"yaql.memoryQuota": quota, "yaql.limitIterators": 1000})
+    return _impls[key]
+
+
+def impl_of(case):
+    return impl_quota(case["quota"]) if case.get("quota") else impl(cfg_of(case))
+
+
 def cfg_of(case):
     return case.get("cfg", "CDefault")
+
+
+# ---- the literal route: operands spelled in the expression text instead of bound as variables
+def lit(v):
+    """yaql spelling of a value, or None when it has none (exponent floats, inf/nan, surrogates, quotes)"""
+    k = kind(v)
+    if k == "null":
+        return "null"
+    if k == "bool":
+        return "true" if v else "false"
+    if k == "int":
+        return str(v)
+    if k == "float":
+        if v != v or v in (float("inf"), float("-inf")):
+            return None
+        t = repr(v)
+        if "e" in t:
+            t = format(v, ".1f")
+        try:
+            back = float(t)
+        except ValueError:
+            return None
+        return t if (back == v and math.copysign(1, back) == math.copysign(1, v) and len(t) < 400) else None
+    if k == "str":
+        if all(c.isprintable() and c not in "'\\" and not 0xD800 <= ord(c) <= 0xDFFF for c in v):
+            return "'" + v + "'"
+        return None
+    if k == "tuple" and all(kind(x) == "int" for x in v):     # a yaql list literal denotes a tuple
+        return "[" + ", ".join(str(x) for x in v) + "]"
+    return None
+
+
+def signed(v):
+    t = lit(v)
+    return t is not None and t.startswith("-")
+
+
+def un(sp, x):
+    return sp + (" " if sp[-1].isalpha() else "") + x
 
 
 def text2(sp):
@@ -416,25 +470,43 @@ def case_term(case, obs, ran, unchecked=False):
     else:
         op, args = CTOR_OF[ops[0]], vals[:2]
         then = "(Some (%s, %s))" % (CTOR_OF[ops[1]], gval(vals[2]))
-    return "{| c_cfg := %s; c_op := %s; c_args := %s; c_then := %s; c_ran := %s; c_obs := %s |}" % (
-        cfg_of(case), op, gal.lst(gval(v) for v in args), then, gal.lst(ran), gobs(obs, unchecked))
+    post = gal.lst(CTOR_OF_UNARY[sp] for sp in case.get("post", []))
+    return "{| c_cfg := %s; c_op := %s; c_args := %s; c_then := %s; c_post := %s; c_ran := %s; c_obs := %s |}" % (
+        cfg_of(case), op, gal.lst(gval(v) for v in args), then, post, gal.lst(ran), gobs(obs, unchecked))
 
 
 def case_text(case):
     n = len(case["vals"])
-    return text1(case["ops"][0]) if n == 1 else text2(case["ops"][0]) if n == 2 else text3(*case["ops"])
+    if case.get("route") != "lit" and not case.get("post"):
+        return text1(case["ops"][0]) if n == 1 else text2(case["ops"][0]) if n == 2 else text3(*case["ops"])
+    xs = [lit(v) for v in case["vals"]] if case.get("route") == "lit" else ["$a", "$b", "$c"][:n]
+    if n == 1:
+        t = un(case["ops"][0], xs[0])
+        for sp in case.get("post", []):
+            t = un(sp, t)
+        return t
+    assert n == 2 and not case.get("post")
+    return "%s %s %s" % (xs[0], case["ops"][0], xs[1])
 
 
 def case_env(case):
-    return dict(zip("abc", case["vals"]))
+    return {} if case.get("route") == "lit" else dict(zip("abc", case["vals"]))
 
 
 def enc_case(case):
-    return {"cfg": cfg_of(case), "ops": case["ops"], "vals": [enc(v) for v in case["vals"]]}
+    d = {"cfg": cfg_of(case), "ops": case["ops"], "vals": [enc(v) for v in case["vals"]]}
+    for k in ("post", "route", "quota"):
+        if case.get(k):
+            d[k] = case[k]
+    return d
 
 
 def dec_case(j):
-    return {"cfg": j.get("cfg", "CDefault"), "ops": list(j["ops"]), "vals": [dec(v) for v in j["vals"]]}
+    d = {"cfg": j.get("cfg", "CDefault"), "ops": list(j["ops"]), "vals": [dec(v) for v in j["vals"]]}
+    for k in ("post", "route", "quota"):
+        if j.get(k):
+            d[k] = j[k]
+    return d
 
 
 # ----------------------------------------------------------------------------- O: the laws
